@@ -182,10 +182,16 @@ def relayout(x, k):
 
 def vary_seq(seq, k):
     """The same integer sequence handed over as another container type: list, tuple, NumPy
-    int64 array, list of NumPy integers (None stays None)."""
+    int64 array, list of NumPy integers, narrow NumPy integers (int8 list, int16 array) when the
+    values fit (None stays None)."""
     if seq is None:
         return None
-    k = int(k) % 4
+    k = int(k) % 6
+    if k == 4 and all(-120 <= int(v) <= 120 for v in seq):
+        return [np.int8(v) for v in seq]          # narrow element types (header fields)
+    if k == 5 and all(-30000 <= int(v) <= 30000 for v in seq):
+        return np.asarray(seq, dtype=np.int16)
+    k = k % 4
     if k == 1:
         return tuple(int(v) for v in seq)
     if k == 2:
